@@ -676,27 +676,27 @@ fn body(run: &Run, replay: Option<&Value>) {
         id_orders: if quick { &[0] } else { &[0, 1] },
     });
     if quick {
-        // N = 4 with one multi-edge or one adjustment, sizes {4, 0x7FFE, 0xFFFE, 0x10000}
+        // N = 4 with one multi-edge or one adjustment, sizes {4, 0xFFFE, 0x10000}
         run_family(run, &Family {
-            name: "n4_one_deviation_4sizes",
+            name: "n4_one_deviation_3sizes",
             n: 4,
             widths: &w2,
-            sizes: size_vectors(4, &[4, 0x7FFE, 0xFFFE, 0x10000], &[], 0),
+            sizes: size_vectors(4, &[4, 0xFFFE, 0x10000], &[], 0),
             variants: Variants::OneDeviation,
             iso_reduce: false,
             id_orders: &[0],
         });
         // N = 5, <= 2 large nodes, isomorphic relabellings removed
         run_family(run, &Family {
-            name: "n5_iso_le2large_small{4}_large{7FFE,FFFE,10000}",
+            name: "n5_iso_le2large_small{4}_large{FFFE,10000}",
             n: 5,
             widths: &w2,
-            sizes: size_vectors(5, &[4], &[0x7FFE, 0xFFFE, 0x10000], 2),
+            sizes: size_vectors(5, &[4], &[0xFFFE, 0x10000], 2),
             variants: Variants::Plain,
             iso_reduce: true,
             id_orders: &[0],
         });
-        run.bound("graph_families", json!("N<=3: all shapes x 7 sizes x {plain, one multi-edge, one adjustment=2, both} x both id orders; N=4: all 416 shapes x 7^4 sizes plain, and x {4,7FFE,FFFE,10000}^4 with one multi-edge or one adjustment; N=5: shapes up to relabelling x (<=2 large nodes from {7FFE,FFFE,10000}, others size 4)"));
+        run.bound("graph_families", json!("N<=3: all shapes x 7 sizes x {plain, one multi-edge, one adjustment=2, both} x both id orders; N=4: all 416 shapes x 7^4 sizes plain, and x {4,FFFE,10000}^4 with one multi-edge or one adjustment; N=5: shapes up to relabelling x (<=2 large nodes from {FFFE,10000}, others size 4)"));
     } else {
         run_family(run, &Family {
             name: "n4_w24_plain_full_sizes",
